@@ -385,17 +385,35 @@ def setup():
 
 
 def replay(path):
+    """Re-execute a recorded case on the implementation and on the model and print both."""
     payload = json.load(open(path, encoding="utf-8"))
-    print(json.dumps(payload, indent=1)[:4000])
+    print(json.dumps({k: v for k, v in payload.items() if k != "more_cases"}, indent=1)[:6000])
     case = payload.get("case") or {}
-    req = case.get("replay")
-    if req:
+    hist = (case.get("replay") or {}).get("history") or []
+    forest = [h for h in hist if re.match(r"^(reset|cons|new|append|prepend|insert_|detach|remove|replace|unwrap|wrap|clone|any_append|append_|map_|set_|text_content_set|strip_ws|dump|inv|removed)", h)]
+    if forest:
         with Lock():
             cb = cargo_build()
-        if cb["ok"]:
-            rc, out, err = run_harness(["replay", payload["property"], json.dumps(case)], 600)
-            print(out)
-            return rc
+            sh(["lake", "build", "xotmodel"], cwd=LEAN, timeout=3000)
+        if not cb["ok"]:
+            print("harness does not build")
+            return 1
+        p = subprocess.run([HBIN, "exec-forest", "0", "0", "replay"], input="\n".join(forest) + "\n", env=ENV,
+                           stdout=subprocess.PIPE, stderr=subprocess.PIPE, text=True, timeout=600)
+        reqs, resps = [], []
+        for line in p.stdout.split("\n"):
+            if line.startswith("T\t"):
+                _t, rq, rs = line.split("\t", 2)
+                reqs.append(rq)
+                resps.append(rs)
+        _rc, mresps, _err = run_model(reqs, 600)
+        print("\n--- replay: request | implementation | model")
+        for rq, a, b in zip(reqs, resps, mresps):
+            mark = "  " if a == b else "!!"
+            print(f"{mark} {rq}\n     impl : {a}\n     model: {b}")
+        for line in p.stdout.split("\n"):
+            if line.startswith("F\t"):
+                print(line)
     return 0
 
 
